@@ -2040,6 +2040,29 @@ func ruleSourcesSeededFirst(c *Ctx, rule string) {
 			s := newSym(L, map[string]bool{})
 			s.maxD = 0
 			t := strings.Join(s.eval(iff.Cond), "|")
+			// the count read back from the counter record that was just filled: what was stored there
+			if bo, isB := iff.Cond.(*ssa.BinOp); isB && bo.Op == token.EQL {
+				if k, isC := constInt(bo.Y); isC && k == 0 {
+					if rv := resolve(bo.X); rv != bo.X {
+						t = "bin==(" + strings.Join(s.eval(rv), "|") + ", 0)"
+					} else if u, isU := bo.X.(*ssa.UnOp); isU && u.Op == token.MUL {
+						// a field of the record allocated in this iteration: the one store into that field of that allocation
+						if fa, isF := u.X.(*ssa.FieldAddr); isF {
+							if al, isA := fa.X.(*ssa.Alloc); isA {
+								var vals []ssa.Value
+								for _, st := range storesInto(al) {
+									if fa2, ok2 := st.Addr.(*ssa.FieldAddr); ok2 && fa2.Field == fa.Field {
+										vals = append(vals, st.Val)
+									}
+								}
+								if len(vals) == 1 {
+									t = "bin==(" + strings.Join(s.eval(vals[0]), "|") + ", 0)"
+								}
+							}
+						}
+					}
+				}
+			}
 			conds = append(conds, t)
 			if !(strings.HasPrefix(t, "bin==(builtin len(lookup(field:internal/kessoku.Graph.reverseEdges(") && strings.HasSuffix(t, ", 0)") && iff.Block().Succs[0].Dominates(cs.instr.Block())) {
 				ok = false
@@ -5706,6 +5729,16 @@ func ruleConverterHomeIsWirePackage(c *Ctx, rule string) {
 				if calleeIsFn(x, fwi) {
 					return true
 				}
+				// a private predicate around the test (importsWire(pkg)): what it returns derives from FindWireImport
+				if g := x.Common().StaticCallee(); g != nil && g.Pkg == mf.Pkg && len(g.Blocks) > 0 && g.Signature.Results().Len() == 1 && g.Signature.Results().At(0).Type().String() == "bool" {
+					for _, b := range g.Blocks {
+						for _, in := range b.Instrs {
+							if call, isC := in.(*ssa.Call); isC && calleeIsFn(call, fwi) {
+								return true
+							}
+						}
+					}
+				}
 			case *ssa.BinOp:
 				return walk(x.X, d+1) || walk(x.Y, d+1)
 			case *ssa.UnOp:
@@ -5893,7 +5926,7 @@ func rulePreviousOutputsOfEveryFile(c *Ctx, rule string) {
 		for _, b := range f.Blocks {
 			for _, in := range b.Instrs {
 				mu, ok := in.(*ssa.MapUpdate)
-				if !ok || mu.Map.Type().String() != "map[string]struct{}" {
+				if !ok || (mu.Map.Type().String() != "map[string]struct{}" && mu.Map.Type().String() != "map[string]bool") {
 					continue
 				}
 				s := newSym(L, map[string]bool{})
